@@ -129,13 +129,13 @@ let cmd_P arg =
      let (v, s) = show_resolution cls in add s;
      let vs = match v with None -> "N" | Some true -> "F" | Some false -> "T" in
      add ("verdict=" ^ vs);
-     (* conclusions of the proofs returned by start_resolution_algorithm and prove_tautology (glue model,
-        helper conclusions taken from their specs) *)
+     (* conclusions of the proofs returned by start_resolution_algorithm and prove_tautology (glue model with
+        the modelled helpers) *)
      let show_pf = function
        | Ok (Some (b, c)) -> (if b then "T" else "F") ^ show_core c
        | Ok None -> "N" | Err -> "ERR" | Fuel -> "FUEL" in
-     add ("plf=" ^ Digest.to_hex (Digest.string (show_pf (start_resolution_p spec_pieces !no_shadow !fuel cls) ^ "|" ^
-                                                 show_pf (prove_tautology_p spec_pieces !no_shadow !fuel f))));
+     add ("plf=" ^ Digest.to_hex (Digest.string (show_pf (start_resolution_p model_pieces !no_shadow !fuel cls) ^ "|" ^
+                                                 show_pf (prove_tautology_p model_pieces !no_shadow !fuel f))));
      add ("entry=" ^ vd));
   fin ()
 
@@ -153,6 +153,18 @@ let handle line =
             | [a; b] -> (match resolvable (mkset (parse_clause a)) (mkset (parse_clause b)) with
                          | None -> "None"
                          | Some (r, rs) -> string_of_int (int_of_z r) ^ " " ^ show_set rs)
+            | _ -> raise Bad)
+  | "SC" -> (match String.split_on_char ' ' (String.trim arg) with
+            | [a; x] -> (match s_simplify (parse_clause a) (z_of_int (int_of_string x)) with
+                         | Some c -> Digest.to_hex (Digest.string (show_core c)) | None -> "ERR")
+            | _ -> raise Bad)
+  | "TC" -> (match s_trivial (parse_clause (String.trim arg)) with
+             | Some c -> Digest.to_hex (Digest.string (show_core c)) | None -> "ERR")
+  | "OM" -> (match String.split_on_char ' ' (String.trim arg) with
+            | [ps; n] -> let ps = List.map (fun z -> nat_of_int (int_of_z z)) (parse_clause ps) in
+                         let terms = List.init (int_of_string n) (fun i -> KVar (n_of_int i)) in
+                         (match or_move_to_front ps terms with
+                          | Some c -> Digest.to_hex (Digest.string (show_core c)) | None -> "ERR")
             | _ -> raise Bad)
   | "MC" -> (match String.split_on_char ' ' (String.trim arg) with
             | [a; b] -> let l = parse_clause a and r = parse_clause b in
